@@ -245,6 +245,11 @@ TrCheck ==
          staleOK == "stale" \in DOMAIN Ev1 /\ Ev1.stale = "ok" /\ (Ev1.got \in {"T", "F"} \/ (Ev1.got = "ERR" /\ Ev1.errk = "cond"))
      IN
      IF c[1] \notin OKs /\ staleOK THEN Judge("OK_STALE_PERMITTED", c[2], Ev1.eng)
+     \* KF-27: requests issued inside the invalidation window can store a parent entry computed from a
+     \* stale child entry, stamped after the write: it survives the invalidation run (design model
+     \* CheckCache_dispatch.cfg, reproduced deterministically by CheckCacheTrace)
+     ELSE IF c[1] \notin OKs /\ "inwindow" \in DOMAIN Ev1 /\ Ev1.inwindow /\ Ev1.got \in {"T", "F"}
+     THEN Judge("KF_CheckCacheParentFromStaleChild", c[2], Ev1.eng)
      ELSE IF "solo" \in DOMAIN Ev1 /\ Ev1.solo # Ev1.got /\ c[1] \in OKs
      THEN Judge("BAD_DIFFERS_FROM_STANDALONE", c[2], Ev1.eng)
      ELSE Judge(c[1], c[2], Ev1.eng)
